@@ -718,12 +718,12 @@ func (r *reedSolomon) Update(shards [][]byte, newDatashards [][]byte) error {
 	}
 
 	for i := range newDatashards {
-		if newDatashards[i] != nil && shards[i] == nil {
+		if newDatashards[i] != nil && len(shards[i]) == 0 {
 			return ErrInvalidInput
 		}
 	}
 	for _, p := range shards[r.dataShards:] {
-		if p == nil {
+		if len(p) == 0 {
 			return ErrInvalidInput
 		}
 	}
